@@ -1051,9 +1051,12 @@ func (o *ovsdbClient) monitor(ctx context.Context, cookie MonitorCookie, reconne
 	case ovsdb.ConditionalMonitorSinceRPC:
 		var reply ovsdb.MonitorCondSinceReply
 		err = o.rpcClient.CallWithContext(ctx, monitor.Method, args, &reply)
-		if err == nil && reply.Found {
+		if err == nil {
+			// the reply describes the database as of this transaction whether
+			// or not the one we asked for was found: the cache is about to
+			// hold that state, so this is the id to ask for next time
 			monitor.LastTransactionID = reply.LastTransactionID
-			lastTransactionFound = true
+			lastTransactionFound = reply.Found
 		}
 		tableUpdates = reply.Updates
 	default:
